@@ -278,13 +278,10 @@ def SenderOutside (w : World) (s : Nat) : Prop :=
 theorem SenderOutside.of_wired {w : World} {s : Nat} (hw : Wired w) (hu : UserSender w s) : SenderOutside w s :=
   ⟨hu.1, by rw [hw.ifd]; exact hu.2.1, by rw [hw.fp]; exact hu.2.2.1⟩
 
-/-- **sub-case hypothesis of `sat_C11`** (rule 3): a stored record of size zero carries no open notional.
-    (A record of size zero with a non-zero notional can be left by a reduce that rounds to zero while the
-    maintenance ratio is 0, or by a 100 % partial liquidation; the engine's PnL for such a record is 0 while
-    the property's formula gives ∓notional.) -/
-def StaleClean (w : World) (s : Nat) (tx : Tx) : Prop :=
-  ∀ v side m l b, tx = .engine (.openPosition v side m l b) →
-    (readPosition w.engine v s).size.value = 0 → (readPosition w.engine v s).notional = 0
+/- (The former sub-case hypothesis `StaleClean` — "a stored record of size zero carries no open notional" —
+   is gone: since `open_position` treats a stored record of size zero like an absent one (increase path),
+   the reversal path is only taken for a record of non-zero size, for which the engine's PnL and the
+   property's formula agree.  `SatEWitness.c11_stale_notional_ok` replays the former counterexample.) -/
 
 theorem latestCum_congr {e e' : E} (h : e'.vammMaps = e.vammMaps) (v : Nat) : latestCum e' v = latestCum e v := by
   unfold latestCum readVammMap; rw [h]
@@ -397,7 +394,8 @@ theorem getOutputPrice_zero (D : Nat) (d : Direction) (qR bR qo : Nat)
 
 theorem open_core (w w' : World) (env : Env) (s : Nat) (f : Funds) (v : Nat) (side : Side) (m l b : Nat)
     (h : applyTx w env s f (.engine (.openPosition v side m l b)) = .ok w') :
-    ((getPosition env w.engine v s side).direction = sideToDirection side
+    (((getPosition env w.engine v s side).size.isZero = true
+        ∨ (getPosition env w.engine v s side).direction = sideToDirection side)
       ∧ (readPosition w'.engine v s).chk = latestCum w.engine v
       ∧ (0 ≤ wantOf w v s m l → ((readPosition w'.engine v s).margin : Int) = wantOf w v s m l)
       ∧ (wantOf w v s m l < 0 → (readPosition w'.engine v s).margin = 0)
@@ -408,7 +406,6 @@ theorem open_core (w w' : World) (env : Env) (s : Nat) (f : Funds) (v : Nat) (si
     ∨ ((getPosition env w.engine v s side).direction ≠ sideToDirection side
       ∧ (readPosition w'.engine v s).size.value = 0
       ∧ (SenderOutside w s →
-          ((readPosition w.engine v s).size.value = 0 → (readPosition w.engine v s).notional = 0) →
           equityOf w w' v s < 0 ∨ W.flow w'.log ENGINE s = equityOf w w' v s)) := by
   obtain ⟨w1, e1, x, sw, msgs, hst, hlog1, hxv, hex, hsw, sv, st, ss, hpos, hcfg, hcase⟩ :=
     open_flow w w' env s f v side m l b h
@@ -433,9 +430,9 @@ theorem open_core (w w' : World) (env : Env) (s : Nat) (f : Funds) (v : Nat) (si
     rw [hc0] at hlt
     exact ratio_zero_size _ _ _ _ _ _ hq hlt hz
   rcases hcase with ⟨id, hid, x', bo, w2, e3, subs3, hswap, hrep, _, he3, _⟩
-      | ⟨hdir, x1, qo, w2, e3, subs3, hswap, hrep, hcase2⟩
+      | ⟨⟨hnzp, hdir⟩, x1, qo, w2, e3, subs3, hswap, hrep, hcase2⟩
   · obtain ⟨hc, hz⟩ := hupr _ _ _ _ _ _ _ sw hsw sv st hmaps hcfg hrep he3
-    rcases hid with ⟨rfl, hdir⟩ | ⟨rfl, hdir⟩
+    rcases hid with ⟨rfl, hdir⟩ | ⟨rfl, _, hdir⟩
     · left
       refine ⟨hdir, hc, ?_, ?_, hz⟩
       all_goals
@@ -473,7 +470,7 @@ theorem open_core (w w' : World) (env : Env) (s : Nat) (f : Funds) (v : Nat) (si
       have hk := EngineMoney.getPosition_key env e1 v s side
       have hread3 : readPosition w'.engine v s = p' := by
         rw [he3]; exact read_of_store e1 e3 p' v s hp' (pv.trans hk.1) (pt.trans hk.2)
-      refine ⟨hdir, by rw [hread3]; have := C19.toInt_natAbs p'.size; omega, fun hso hclean => ?_⟩
+      refine ⟨hdir, by rw [hread3]; have := C19.toInt_natAbs p'.size; omega, fun hso => ?_⟩
       obtain ⟨rm0, pm, mg, fm, sp, tl, hrm0, hpm, hmg, hfm, hsubs⟩ :=
         rev_closed_inv _ _ _ _ sw hsw _ hrep hnone
       dsimp only at hsubs
@@ -492,7 +489,7 @@ theorem open_core (w w' : World) (env : Env) (s : Nat) (f : Funds) (v : Nat) (si
         unfold getPosition
         simp only []
         rw [if_neg hvz]
-      rw [hgp] at hrm0 hpm hswap hpnl
+      rw [hgp] at hrm0 hpm hswap hpnl hnzp
       -- amounts
       have e1' := (EngineMoney.calcRemainMargin_spec _ _ _ _ hrm0).1
       rw [fundingOwed_congr hmaps hcfg] at e1'
@@ -521,12 +518,10 @@ theorem open_core (w w' : World) (env : Env) (s : Nat) (f : Funds) (v : Nat) (si
           | .addToAmm => (qo : Int) - (readPosition w.engine v s).notional
           | .removeFromAmm => ((readPosition w.engine v s).notional : Int) - qo) := by
         obtain ⟨hz, hnz⟩ := pnl_spot_inv _ _ _ _ _ hpnl
-        by_cases hsz : (readPosition w.engine v s).size.value = 0
-        · have hn := hclean hsz
-          rw [hsz] at hq0
-          have : qo = 0 := getOutputPrice_zero _ _ _ _ _ hq0
-          rw [(hz hsz).2, this, hn]
-          cases (readPosition w.engine v s).direction <;> rfl
+        -- (the reversal path is only taken for a record of non-zero size)
+        have hsz : (readPosition w.engine v s).size.value ≠ 0 := by
+          intro h0
+          exact hnzp (by simp [Integer.isZero, h0])
         · obtain ⟨hout, hu⟩ := hnz hsz
           obtain ⟨x0, hx0, hqa⟩ := MirrorP.q_outputAmount _ _ _ _ _ hout
           have hvv := (MirrorP.read_found w.engine v s hsz).1
@@ -695,7 +690,7 @@ theorem check_other (st : Step) (h1 : ∀ v side m l b, st.tx ≠ .engine (.open
 /-- **C11, clean form** -/
 theorem sat_C11 (w : World) (env : Env) (s : Nat) (f : Funds) (tx : Tx)
     (hbh : BufferHalf w) (hnf : NoFundsAttached w f tx) (hso : SenderOutside w s)
-    (hmmr : w.engine.cfg.mmr ≠ 0) (hcl : StaleClean w s tx) :
+    (hmmr : w.engine.cfg.mmr ≠ 0) :
     Spec.C11.check (modelStep w env s f tx) = [] := by
   cases hx : applyTx w env s f tx with
   | error e =>
@@ -713,7 +708,7 @@ theorem sat_C11 (w : World) (env : Env) (s : Nat) (f : Funds) (tx : Tx)
         rcases open_core w w' env s f v side m l b hx with ⟨_, _, _, _, hnz⟩ | ⟨_, _, hnz⟩ | ⟨_, _, hE⟩
         · exact absurd hz (hnz hmmr)
         · exact absurd hz (hnz hmmr)
-        · rcases hE hso (hcl v side m l b rfl) with h1 | h1
+        · rcases hE hso with h1 | h1
           · simp [h1]
           · simp [h1]
     · by_cases hp : ∃ v, tx = .engine (.payFunding v)
@@ -722,8 +717,7 @@ theorem sat_C11 (w : World) (env : Env) (s : Nat) (f : Funds) (tx : Tx)
       · exact check_other _ (fun v side m l b hh => ho ⟨v, side, m, l, b, hh⟩) (fun v hh => hp ⟨v, hh⟩)
 
 /-- **C11, general form**: only the reversal-payout clause can fail (zero-size outcomes of an order against
-    a stored opposite record while the maintenance ratio is 0; stale records with a notional; a sender that
-    is one of the pools) -/
+    a stored opposite record while the maintenance ratio is 0; a sender that is one of the pools) -/
 theorem C11_tags (w : World) (env : Env) (s : Nat) (f : Funds) (tx : Tx)
     (hbh : BufferHalf w) (hnf : NoFundsAttached w f tx) :
     ∀ tag ∈ Spec.C11.check (modelStep w env s f tx), tag ∈ ["funding-skipped-when-closing-by-reversal"] := by
